@@ -277,8 +277,8 @@ def h18_special_values(S):
     from repid.data._key import RoutingKey
     from repid.dependencies import Depends
 
-    which = S.pick("case", 3)
-    nested = S.flag("nested_under_another_provider")
+    which = S.pick("case", 5)
+    nested = S.flag("nested_under_another_provider") if which < 3 else False
     received = []
     out = {}
     marker = KeyError("a value, not a failure")
@@ -292,15 +292,37 @@ def h18_special_values(S):
     async def plain():
         return 5
 
-    leaf = [returns_exception, answers_itself, plain][which]
-    dep = Depends(leaf)
-    if nested:
-        async def outer(x: Annotated[object, dep]):
-            return x
-        dep = Depends(outer)
+    async def tagged(m: MessageDependency):
+        return ("tagged", m.key.id_)
 
-    async def actor(d: Annotated[object, dep]):
-        received.append(d)
+    def environment():
+        return "production"
+
+    def sandbox():
+        return "sandbox"
+
+    if which == 3:
+        # the annotated type is itself a dependency class, the metadata names the provider to use
+        async def actor(d: Annotated[MessageDependency, Depends(tagged)]):
+            received.append(d)
+    elif which == 4:
+        # two Depends objects over one provider function are two dependencies: overriding one leaves the other alone
+        dep_a, dep_b = Depends(environment), Depends(environment)
+
+        async def actor(a: Annotated[str, dep_a], b: Annotated[str, dep_b]):
+            received.append((a, b))
+
+        dep_b.override(sandbox)        # e.g. a test overriding one of them after the actors were declared
+    else:
+        leaf = [returns_exception, answers_itself, plain][which]
+        dep = Depends(leaf)
+        if nested:
+            async def outer(x: Annotated[object, dep]):
+                return x
+            dep = Depends(outer)
+
+        async def actor(d: Annotated[object, dep]):
+            received.append(d)
 
     async def main(loop):
         w = World()
@@ -314,7 +336,14 @@ def h18_special_values(S):
 
     run_async(main, clock=PinnedClock(T0))
     S.cover("special-values")
-    S.tag("case", ["returns-exception-instance", "answers-the-message", "plain"][which])
+    S.tag("case", ["returns-exception-instance", "answers-the-message", "plain", "annotated-dependency-class-with-provider", "two-depends-one-provider"][which])
+    if which == 3:
+        S.check("provider-named-in-the-annotation-is-used", received == [("tagged", "m1")] and out["ops"] == ["ack"], info=f"received={received} ops={out['ops']}")
+        return
+    if which == 4:
+        S.check("override-applies-to-the-overridden-dependency-only", received == [("production", "sandbox")] and out["ops"] == ["ack"],
+                info=f"received={received} ops={out['ops']}")
+        return
     if which == 0:
         S.check("exception-instance-is-a-value", received == [marker] or (len(received) == 1 and received[0] is marker), info=f"received={received} ops={out['ops']}")
         S.check("acked", out["ops"] == ["ack"], info=str(out["ops"]))
